@@ -109,6 +109,21 @@ fn scenarios(ctx: &Ctx) -> Vec<Scenario> {
   add("ipv6-stride-6-list", true, vec![good_c(51)], vec![good_a(p3.clone())]);
   add("ipv6-ragged", true, vec![good_c(52)], vec![good_a(p6[..35].to_vec())]);
   add("ipv6-connect-drop", true, vec![Resp::Drop, good_c(53)], vec![good_a(p6.clone())]);
+  for n in [6usize, 12, 24, 30] {
+    // lists that would be whole in IPv4 records are ragged in IPv6 ones
+    add(&format!("ipv6-ragged-{n}-bytes"), true, vec![good_c(54)], vec![good_a(rng.bytes(n))]);
+  }
+  // an error reply whose message is not text; actions that differ from the expected one in the high bytes only
+  add("connect-error-action-not-utf8", false, vec![Resp::Action(3, vec![0xff, 0xfe, 0xfd, 0x80])], vec![good_a(p3.clone())]);
+  add("announce-error-action-not-utf8", false, vec![good_c(55)], vec![Resp::Action(3, vec![0xff, 0xfe, 0xfd, 0x80])]);
+  add("connect-action-high-bytes", false, vec![Resp::Action(0x0001_0000, cid_bytes(56))], vec![good_a(p3.clone())]);
+  add("announce-action-high-bytes", false, vec![good_c(57)], vec![Resp::Action(0x0001_0001, ann_payload(&p3))]);
+  add("announce-action-all-ones-high", false, vec![good_c(58)], vec![Resp::Action(0xffff_0001, ann_payload(&p3))]);
+  // a record is a record, whatever its port
+  add("announce-peer-with-port-0", false, vec![good_c(59)], vec![good_a(vec![10, 0, 0, 1, 0, 0, 10, 0, 0, 2, 0x1a, 0xe1, 10, 0, 0, 3, 0xff, 0xff])]);
+  // retries are counted per request, not per tracker
+  add("drops-in-both-phases-2-then-1", false, vec![Resp::Drop, Resp::Drop, good_c(61)], vec![Resp::Drop, good_a(p3.clone())]);
+  add("drops-in-both-phases-2-then-2", false, vec![Resp::Drop, Resp::Drop, good_c(62)], vec![Resp::Drop, Resp::Drop, good_a(p3.clone())]);
   // URL screening
   v.push(Scenario { label: "only-http".into(), ipv6: false, connect: vec![], announce: vec![], extra_urls: vec!["http://127.0.0.1:1/announce".into()], include_sim: false });
   v.push(Scenario { label: "udp-without-port".into(), ipv6: false, connect: vec![], announce: vec![], extra_urls: vec!["udp://127.0.0.1/announce".into()], include_sim: false });
@@ -169,7 +184,12 @@ fn observe(ctx: &Ctx, s: &Scenario) -> Obs {
   let torrent = B::dict(vec![("info", info), ("announce", B::s(&urls[0])), ("announce-list", B::List(vec![B::List(urls.iter().map(|u| B::s(u)).collect())]))]).encode();
   let sb = Sandbox::new(&ctx.work, "c12");
   sb.write("t.torrent", &torrent);
-  let out = Cmd::new(&ctx.imdl, &["torrent", "announce", "--input", "t.torrent"]).cwd(&sb.root).timeout_s(60).run();
+  // (the torrent is read from a file or from standard input)
+  let out = if crate::report::fnv_str(&s.label) % 5 == 1 {
+    Cmd::new(&ctx.imdl, &["torrent", "announce", "--input", "-"]).cwd(&sb.root).stdin(&torrent).timeout_s(60).run()
+  } else {
+    Cmd::new(&ctx.imdl, &["torrent", "announce", "--input", "t.torrent"]).cwd(&sb.root).timeout_s(60).run()
+  };
   let seen = sim.finish();
   Obs { code: out.code, signal: out.signal, stdout: out.stdout_s(), stderr: out.stderr_s(), seen, infohash: ih }
 }
